@@ -244,13 +244,13 @@ func (b *assignmentBuilder) createWithConverter(lhs, rhs bmodel.Node, converter 
 
 		argNode, ok := b.castNode(converter.ArgType(), rhsNode)
 		if !ok {
-			if !util.IsPtr(converter.ArgType()) {
+			// The converter takes a pointer: pass the address of the source, which must then
+			// be addressable and of exactly the pointed-to type.
+			if !util.IsPtr(converter.ArgType()) || !isAddressable(rhsNode) ||
+				!types.Identical(rhsNode.ExprType(), util.DerefPtr(converter.ArgType())) {
 				return nil
 			}
-			argNode, ok = b.castNode(util.DerefPtr(converter.ArgType()), rhsNode)
-			if !ok {
-				return nil
-			}
+			argNode = rhsNode
 		}
 		convNode := bmodel.NewConverterNode(argNode, converter)
 		casted, _ := b.castNode(lhs.ExprType(), convNode)
@@ -375,6 +375,21 @@ func (b *assignmentBuilder) castNode(lhsType types.Type, rhs bmodel.Node) (c bmo
 		return
 	}
 	return nil, false
+}
+
+// isAddressable reports whether the address of the expression that node represents can be
+// taken: a variable, or a field selected from an addressable struct or through a pointer.
+// The result of a method call is not addressable.
+func isAddressable(node bmodel.Node) bool {
+	switch n := node.(type) {
+	case bmodel.RootNode:
+		return true
+	case bmodel.StructFieldNode:
+		parent := n.Parent()
+		return parent != nil && (util.IsPtr(parent.ExprType()) || isAddressable(parent))
+	default:
+		return false
+	}
 }
 
 // isStructFieldAccessible returns true if the given struct field is accessible from the current package.
